@@ -63,7 +63,7 @@ func (d *DatasourceExecuting) Run(ctx ExecutionContext, produce ProduceFn, metaS
 		values := make([]octosql.Value, len(indicesToRead))
 		for i, columnIndex := range indicesToRead {
 			str := row[columnIndex]
-			if str == "" {
+			if str == "" && octosql.Null.Is(d.fields[i].Type) == octosql.TypeRelationIs {
 				values[i] = octosql.NewNull()
 				continue
 			}
@@ -100,7 +100,12 @@ func (d *DatasourceExecuting) Run(ctx ExecutionContext, produce ProduceFn, metaS
 				}
 			}
 
-			values[i] = octosql.NewString(str)
+			if octosql.String.Is(d.fields[i].Type) == octosql.TypeRelationIs {
+				values[i] = octosql.NewString(str)
+				continue
+			}
+
+			return fmt.Errorf("value '%s' of column '%s' doesn't match the column type %s", str, d.fields[i].Name, d.fields[i].Type)
 		}
 
 		if err := produce(ProduceFromExecutionContext(ctx), NewRecord(values, false, time.Time{})); err != nil {
